@@ -308,6 +308,39 @@ func runC09(env *core.Env) {
 	if env.Shard == 2%env.NShards {
 		c09NowArithmetic(env)
 	}
+	if env.Shard == 3%env.NShards {
+		c09Chains(env)
+	}
+}
+
+// c09Chains: `x + q + q` is `(x + q) + q`: each step is the single operation (decided by the model above) applied
+// to the previous step's result, whatever the operands are (clamping and truncation happen per step).
+func c09Chains(env *core.Env) {
+	defer env.In("chains")()
+	env.Case()
+	for _, x := range []string{"@2020-01-31", "@2020", "@2020-01-01", "@2020-01", "@2019-12-31", "@2020-01-31T10:00:00Z", "@2020-02-29", "@2020-02-29T23:30:00+05:30", "@T23:30", "@2020-03T"} {
+		for _, q := range []string{"1 month", "6 months", "1.5 days", "1 year", "18 months", "1 week", "36 hours", "0.5 years", "30 minutes", "1.5 months", "45 days", "1 'mo'", "1 'd'"} {
+			for _, ops := range [][2]string{{"+", "+"}, {"-", "-"}, {"+", "-"}, {"-", "+"}} {
+				chain := x + " " + ops[0] + " " + q + " " + ops[1] + " " + q
+				step := "(" + x + " " + ops[0] + " " + q + ") " + ops[1] + " " + q
+				rc, rs := fx.E(env, chain), fx.E(env, step)
+				env.Cover("chain-vs-steps")
+				if rc.IsPanic() {
+					env.Violatef(fx.PanicSig("C09", rc), "`%s` => %s", chain, rc.Short())
+					continue
+				}
+				if !fx.Same(rc, rs) {
+					env.Violatef("C09/chain/differs-from-steps", "`%s` = %s but `%s` = %s", chain, trunc(rc.Short(), 80), step, trunc(rs.Short(), 80))
+				}
+				// three steps
+				chain3, step3 := chain+" "+ops[0]+" "+q, "("+step+") "+ops[0]+" "+q
+				r3, s3 := fx.E(env, chain3), fx.E(env, step3)
+				if !r3.IsPanic() && !fx.Same(r3, s3) {
+					env.Violatef("C09/chain/differs-from-steps", "`%s` = %s but `%s` = %s", chain3, trunc(r3.Short(), 80), step3, trunc(s3.Short(), 80))
+				}
+			}
+		}
+	}
 }
 
 func c09Monotone(env *core.Env, kind, xText, unit string) {
